@@ -7,6 +7,7 @@ import AdaptiveProofs.Lemmas.LNDSubVerts
 import AdaptiveProofs.Lemmas.LNDDead
 import AdaptiveProofs.Lemmas.LNDFresh
 import AdaptiveProofs.Lemmas.Choose
+import AdaptiveProofs.Lemmas.ChooseGeom2
 
 /-!
 # C04 — LearnerND: one loss per simplex of the data, and ask refines the worst simplex
@@ -627,3 +628,232 @@ theorem choose2_centroid_iff_not_obtuse (sqrt : α → α) (hs : SqrtLaw sqrt) (
 
 end choose2
 end LND
+
+/-! ## appended: the GEOMETRIC fields of `ChooseGeom` derived in dimension 2 (helpers: `Lemmas/ChooseGeom2.lean`)
+
+`ChooseGeom` has three geometric fields (`inside`, `inSimplex`, `inOwner`) and two combinatorial ones (`split`, `nodup`).
+For an `Env` whose oracles `choose` / `pis` / `inside` compute `choose_point_in_simplex` / `point_in_simplex` /
+the rectangular `inside_bounds` from point coordinates (`CoordEnv2`, the phrasing of `chooseGeom_inSimplex_dim2`) the
+geometric fields are THEOREMS:
+
+* `pis2_convex` — the accepted set of `point_in_simplex(·, triangle, eps)` is convex (every `eps`, every triangle; the
+  2-D test is `-eps ≤ s`, `s ≤ 1 + eps`, `-eps ≤ t`, `s + t ≤ 1 + eps`, all non-strict);
+* `choose2_in_owner` — a point chosen in a sub-triangle whose vertices the owner accepts is accepted by the owner;
+* `choose2_in_box` — a point chosen in a triangle with vertices in the (tolerance-enlarged) box lies in it;
+* `chooseGeom_inOwner_dim2`, `chooseGeom_inside_rect_dim2`, `chooseGeom_inSimplex_dim2'` (in `Lemmas/ChooseGeom2.lean`) —
+  the three fields per (sub)triangle; `SubVertsInOwner` is the invariant of `_try_adding_pending_point_to_simplex`
+  (`subVertsInOwner_of_pending`: corners are accepted, the rest was accepted when it was put in);
+* `chooseGeom_dim2_of_coords` — `ChooseGeom env` literally.  Because `ChooseGeom.inside` / `.inSimplex` quantify over ALL
+  point lists this needs (and, `inside_all_of_chooseGeom`, FORCES) every point id to lie in the domain, and a default for
+  lists that are no triangles;
+* `chooseGeomDom_dim2_of_coords` — the restricted `ChooseGeomDom env` (simplices with vertices in the domain) with NO such
+  extra hypothesis; the C04 queue theorems hold with `ChooseGeomDom` and `AskDom` (`AskNew` + the vertices of the popped
+  (sub)simplex are points of the domain): `lnd_chosen_subdivided_dom`, `lnd_ghost_true_dom`, `lnd_queue_complete_dom`,
+  and for coordinate-computed environments `lnd_*_dim2`. -/
+namespace LND
+section geom2
+open Choose Gen.Prims Prims
+variable {α : Type} [Field α] [LinearOrder α] [IsStrictOrderedRing α]
+
+/-- C04.geom.1  `pis2_convex`: convex combinations of accepted points are accepted (same `eps`; every `eps`, every
+triangle — degenerate or not) -/
+theorem pis2_convex (x0 y0 x1 y1 x2 y2 eps : α) (l0 l1 l2 : α) (h0 : 0 ≤ l0) (h1 : 0 ≤ l1) (h2 : 0 ≤ l2)
+    (hs : l0 + l1 + l2 = 1) (ax ay bx by' cx cy : α)
+    (ha : point_in_simplex2 ax ay x0 y0 x1 y1 x2 y2 eps = true)
+    (hb : point_in_simplex2 bx by' x0 y0 x1 y1 x2 y2 eps = true)
+    (hc : point_in_simplex2 cx cy x0 y0 x1 y1 x2 y2 eps = true) :
+    point_in_simplex2 (l0 * ax + l1 * bx + l2 * cx) (l0 * ay + l1 * by' + l2 * cy) x0 y0 x1 y1 x2 y2 eps = true :=
+  Choose.pis2_convex x0 y0 x1 y1 x2 y2 eps l0 l1 l2 h0 h1 h2 hs ax ay bx by' cx cy ha hb hc
+
+/-- C04.geom.2  `choose2_in_owner` -/
+theorem choose2_in_owner (sqrt : α → α) (hs : SqrtLaw sqrt) (eps' : α) (s0 s1 s2 : P2 α) (t : Option (P2 α))
+    (ht : ∀ t0 t1, t = some (t0, t1) → t0 ≠ 0 ∧ t1 ≠ 0) (o0 o1 o2 : P2 α) (eps : α)
+    (h0 : point_in_simplex2 s0.1 s0.2 o0.1 o0.2 o1.1 o1.2 o2.1 o2.2 eps = true)
+    (h1 : point_in_simplex2 s1.1 s1.2 o0.1 o0.2 o1.1 o1.2 o2.1 o2.2 eps = true)
+    (h2 : point_in_simplex2 s2.1 s2.2 o0.1 o0.2 o1.1 o1.2 o2.1 o2.2 eps = true) :
+    point_in_simplex2 (choosePoint2 sqrt eps' s0 s1 s2 t).1 (choosePoint2 sqrt eps' s0 s1 s2 t).2
+      o0.1 o0.2 o1.1 o1.2 o2.1 o2.2 eps = true :=
+  Choose.choose2_in_owner sqrt hs eps' s0 s1 s2 t ht o0 o1 o2 eps h0 h1 h2
+
+/-- C04.geom.4  `choose2_in_box` (rectangular `inside_bounds`, absolute tolerance `epsb`) -/
+theorem choose2_in_box (sqrt : α → α) (hs : SqrtLaw sqrt) (eps : α) (p0 p1 p2 : P2 α) (t : Option (P2 α))
+    (ht : ∀ t0 t1, t = some (t0, t1) → t0 ≠ 0 ∧ t1 ≠ 0) (a0 b0 a1 b1 epsb : α)
+    (h0 : insideRect a0 b0 a1 b1 epsb p0 = true) (h1 : insideRect a0 b0 a1 b1 epsb p1 = true)
+    (h2 : insideRect a0 b0 a1 b1 epsb p2 = true) :
+    insideRect a0 b0 a1 b1 epsb (choosePoint2 sqrt eps p0 p1 p2 t) = true :=
+  Choose.choose2_in_box sqrt hs eps p0 p1 p2 t ht a0 b0 a1 b1 epsb h0 h1 h2
+
+end geom2
+
+section queueDom
+variable {α : Type} [Sub α] [Mul α] [Div α] [LT α] [DecidableLT α]
+
+/-- C04.c  `lnd_chosen_subdivided` with `ChooseGeomDom` (geometric fields only for simplices with vertices in the
+domain) and `AskOkAt env s` (the chosen point has no value, the vertices of the popped (sub)simplex lie in the domain) -/
+theorem lnd_chosen_subdivided_dom (env : Env α) (hT : TriGeom env) (hG : SubGeom env) (hC : ChooseGeomDom env)
+    (ops : List (Op α)) {s : State α} (h : run env (init env) ops = .ok s) (hN : AskOkAt env s)
+    {vs : List Pt} (ht : s.tri = some vs)
+    {r : Pt × α} {s' : State α} (ha : askBest env s vs = .ok (r, s')) :
+    ∀ e q, popHighest env (env.triSimps vs.length) s.book.subs s.book.queue = some (e, q) →
+      s'.tri = some vs ∧ live env (env.triSimps vs.length) s'.book.subs e = false := by
+  intro e q hp
+  obtain ⟨e', q', s2, hp', _, h2, rfl⟩ := askBest_form env ha
+  rw [hp] at hp'
+  simp only [Option.some.injEq, Prod.mk.injEq] at hp'
+  obtain ⟨rfl, rfl⟩ := hp'
+  have hr1 := askBest_point env hp ha
+  rw [hr1] at h2
+  have hd := chosen_dead_dom env hG hC ht (run_subVerts env hT ops h) hp (hN.1 vs e q ht hp) (hN.2 vs e q ht hp) h2
+  have t2 : s2.tri = some vs := by
+    obtain ⟨_, _, _, _, _, f⟩ := tellPending_frame env _ _ h2
+    rcases f with f | ⟨f, _⟩
+    · rw [f]; exact ht
+    · have f' : s.tri = none := f
+      rw [ht] at f'; exact absurd f' (by simp)
+  refine ⟨t2, ?_⟩
+  rw [t2] at hd
+  exact hd
+
+/-- C04.c  `lnd_ghost_true` with `ChooseGeomDom` / `AskDom` -/
+theorem lnd_ghost_true_dom (env : Env α) (hT : TriGeom env) (hG : SubGeom env) (hC : ChooseGeomDom env)
+    (ops : List (Op α)) (hN : AskDom env ops) {s : State α} (h : run env (init env) ops = .ok s) :
+    s.book.geomOK = true :=
+  run_geomOK_dom env hT hG hC ops hN h
+
+/-- C04.c  `lnd_queue_complete` with `ChooseGeomDom` / `AskDom` -/
+theorem lnd_queue_complete_dom (env : Env α) (hT : TriGeom env) (hG : SubGeom env) (hC : ChooseGeomDom env)
+    (ops : List (Op α)) (hN : AskDom env ops) {s : State α} (h : run env (init env) ops = .ok s) :
+    ∀ vs, s.tri = some vs → ∀ x ∈ env.triSimps vs.length,
+      (get? x s.book.subs = none →
+        ∃ e ∈ s.book.queue, e.simplex = x ∧ e.sub = none ∧ get? x s.losses = some e.loss) ∧
+      (∀ sv, get? x s.book.subs = some sv → ∀ ss ∈ env.subSimps sv,
+        ∃ e ∈ s.book.queue, e.simplex = x ∧ e.sub = some ss) := by
+  have hq : Cover env s := run_cover_dom env hT hG hC ops hN h
+  intro vs ht x hx
+  have hc := hq x (by simp only [ht, simplices]; exact hx)
+  constructor
+  · intro hn; exact hc none hn
+  · intro sv hsv ss hss; exact hc (some ss) ⟨sv, hsv, hss⟩
+
+end queueDom
+
+section queueDim2
+open Choose Gen.Prims Prims
+variable {α : Type} [Field α] [LinearOrder α] [IsStrictOrderedRing α]
+variable {β : Type} [Sub β] [Mul β] [Div β] [LT β] [DecidableLT β]
+
+/-- the hypotheses left, in dimension 2, once the geometric fields are derived: the environment is computed from
+coordinates over a rectangular domain (`CoordEnv2`), and — COMBINATORICS of the sub-triangulations — sub-simplices are
+triangles, `split`, `nodup`, plus the sub-vertex invariant `SubVertsInOwner` (see there) -/
+structure Dim2Hyps (env : Env β) (coord : Pt → P2 α) (sqrt : α → α) (eps eps' epsb : α) (t : Option (P2 α))
+    (a0 b0 a1 b1 : α) : Prop where
+  coords : CoordEnv2 env coord sqrt eps eps' epsb t a0 b0 a1 b1
+  subSize : ∀ sv, ∀ ss ∈ env.subSimps sv, ss.length = 3
+  subVerts : SubVertsInOwner env
+  split : ∀ sv, ∀ ss ∈ env.subSimps sv, ∀ D A, env.subAdd sv (env.choose (ptsOf sv ss)) = some (D, A) →
+    ss ∉ env.subSimps (sv ++ [env.choose (ptsOf sv ss)])
+  nodup : ∀ n, (env.triSimps n).Nodup
+
+variable {env : Env β} {coord : Pt → P2 α} {sqrt : α → α} {eps eps' epsb : α} {t : Option (P2 α)} {a0 b0 a1 b1 : α}
+
+/-- C04.geom.5  `ChooseGeomDom` for a coordinate-computed 2-D environment over a rectangular domain -/
+theorem Dim2Hyps.chooseGeomDom (hD : Dim2Hyps env coord sqrt eps eps' epsb t a0 b0 a1 b1) : ChooseGeomDom env :=
+  chooseGeomDom_dim2_of_coords env coord sqrt eps eps' epsb t a0 b0 a1 b1 hD.coords hD.subSize hD.subVerts hD.split
+    hD.nodup
+
+/-- C04.geom.5  `ChooseGeom` literally: additionally every point id lies in the domain (forced by `ChooseGeom.inside`,
+`inside_all_of_chooseGeom`), `point_in_simplex` defaults to `True` on lists that are no triangles, and a sub-triangulation
+that has a simplex has at least 3 vertices -/
+theorem Dim2Hyps.chooseGeom (hD : Dim2Hyps env coord sqrt eps eps' epsb t a0 b0 a1 b1)
+    (hlen : ∀ sv, env.subSimps sv ≠ [] → 3 ≤ sv.length) (hdom : ∀ p, env.inside p = true)
+    (hpisD : ∀ q pts, pts.length ≠ 3 → env.pis q pts = true) : ChooseGeom env :=
+  chooseGeom_dim2_of_coords env coord sqrt eps eps' epsb t a0 b0 a1 b1 hD.coords ⟨hD.subSize, hlen⟩ hD.subVerts hdom
+    hpisD hD.split hD.nodup
+
+/-- C04.c in dimension 2, `lnd_chosen_subdivided`: no geometric hypothesis left -/
+theorem lnd_chosen_subdivided_dim2 (hD : Dim2Hyps env coord sqrt eps eps' epsb t a0 b0 a1 b1)
+    (hT : TriGeom env) (hG : SubGeom env)
+    (ops : List (Op β)) {s : State β} (h : run env (init env) ops = .ok s) (hN : AskOkAt env s)
+    {vs : List Pt} (ht : s.tri = some vs)
+    {r : Pt × β} {s' : State β} (ha : askBest env s vs = .ok (r, s')) :
+    ∀ e q, popHighest env (env.triSimps vs.length) s.book.subs s.book.queue = some (e, q) →
+      s'.tri = some vs ∧ live env (env.triSimps vs.length) s'.book.subs e = false :=
+  lnd_chosen_subdivided_dom env hT hG hD.chooseGeomDom ops h hN ht ha
+
+/-- C04.c in dimension 2, `lnd_ghost_true` -/
+theorem lnd_ghost_true_dim2 (hD : Dim2Hyps env coord sqrt eps eps' epsb t a0 b0 a1 b1)
+    (hT : TriGeom env) (hG : SubGeom env) (ops : List (Op β)) (hN : AskDom env ops) {s : State β}
+    (h : run env (init env) ops = .ok s) : s.book.geomOK = true :=
+  lnd_ghost_true_dom env hT hG hD.chooseGeomDom ops hN h
+
+/-- C04.c in dimension 2, `lnd_queue_complete`: for a coordinate-computed environment over a rectangular domain the
+queue is complete in every reachable state of every history in which `_ask_best_point` chose points without a value in
+(sub)simplices with vertices in the domain — given only COMBINATORIAL facts about the (sub)triangulations and the
+sub-vertex invariant -/
+theorem lnd_queue_complete_dim2 (hD : Dim2Hyps env coord sqrt eps eps' epsb t a0 b0 a1 b1)
+    (hT : TriGeom env) (hG : SubGeom env) (ops : List (Op β)) (hN : AskDom env ops) {s : State β}
+    (h : run env (init env) ops = .ok s) :
+    ∀ vs, s.tri = some vs → ∀ x ∈ env.triSimps vs.length,
+      (get? x s.book.subs = none →
+        ∃ e ∈ s.book.queue, e.simplex = x ∧ e.sub = none ∧ get? x s.losses = some e.loss) ∧
+      (∀ sv, get? x s.book.subs = some sv → ∀ ss ∈ env.subSimps sv,
+        ∃ e ∈ s.book.queue, e.simplex = x ∧ e.sub = some ss) :=
+  lnd_queue_complete_dom env hT hG hD.chooseGeomDom ops hN h
+
+/-- the same through the literal `ChooseGeom` (so with `AskNew` only), when every point id lies in the domain -/
+theorem lnd_queue_complete_dim2' (hD : Dim2Hyps env coord sqrt eps eps' epsb t a0 b0 a1 b1)
+    (hlen : ∀ sv, env.subSimps sv ≠ [] → 3 ≤ sv.length) (hdom : ∀ p, env.inside p = true)
+    (hpisD : ∀ q pts, pts.length ≠ 3 → env.pis q pts = true)
+    (hT : TriGeom env) (hG : SubGeom env) (ops : List (Op β)) (hN : AskNew env ops) {s : State β}
+    (h : run env (init env) ops = .ok s) :
+    ∀ vs, s.tri = some vs → ∀ x ∈ env.triSimps vs.length,
+      (get? x s.book.subs = none →
+        ∃ e ∈ s.book.queue, e.simplex = x ∧ e.sub = none ∧ get? x s.losses = some e.loss) ∧
+      (∀ sv, get? x s.book.subs = some sv → ∀ ss ∈ env.subSimps sv,
+        ∃ e ∈ s.book.queue, e.simplex = x ∧ e.sub = some ss) :=
+  lnd_queue_complete env hT hG (hD.chooseGeom hlen hdom hpisD) ops hN h
+
+/-- … and `lnd_ghost_true` -/
+theorem lnd_ghost_true_dim2' (hD : Dim2Hyps env coord sqrt eps eps' epsb t a0 b0 a1 b1)
+    (hlen : ∀ sv, env.subSimps sv ≠ [] → 3 ≤ sv.length) (hdom : ∀ p, env.inside p = true)
+    (hpisD : ∀ q pts, pts.length ≠ 3 → env.pis q pts = true)
+    (hT : TriGeom env) (hG : SubGeom env) (ops : List (Op β)) (hN : AskNew env ops) {s : State β}
+    (h : run env (init env) ops = .ok s) : s.book.geomOK = true :=
+  lnd_ghost_true env hT hG (hD.chooseGeom hlen hdom hpisD) ops hN h
+
+end queueDim2
+end LND
+
+/-- non-vacuity of `Dim2Hyps` (hence of `lnd_*_dim2`): the environment `Wit.wEnv` over `ℝ` (`Lemmas/ChooseGeom2.lean`: point
+ids enumerate the rational points of the plane, `choose` / `pis` / `inside` are the modelled functions with `Real.sqrt`
+over the unit square, every vertex list with at least 3 points carries the sub-triangulation made of its first three
+points) satisfies it for all tolerances with `eps' ≥ 0`, so `ChooseGeomDom` holds for it -/
+example (eps eps' epsb : ℝ) (he : 0 ≤ eps') :
+    LND.Dim2Hyps (Wit.wEnv eps eps' epsb) Wit.coord Real.sqrt eps eps' epsb none 0 1 0 1 ∧
+    LND.ChooseGeomDom (Wit.wEnv eps eps' epsb) := by
+  have h : LND.Dim2Hyps (Wit.wEnv eps eps' epsb) Wit.coord Real.sqrt eps eps' epsb none 0 1 0 1 :=
+    ⟨Wit.wEnv_coords eps eps' epsb he, Wit.wEnv_subSize eps eps' epsb, Wit.wEnv_subVerts eps eps' epsb he,
+      by intro sv ss _ D A hadd; simp [Wit.wEnv] at hadd, by intro n; exact List.nodup_nil⟩
+  exact ⟨h, h.chooseGeomDom⟩
+
+/-- non-vacuity of the `…_dom` theorems on a run: the example environment `exEnv` (`inside _ = true`) satisfies
+`ChooseGeomDom`, the example history satisfies `AskDom`, and `lnd_queue_complete_dom` / `lnd_ghost_true_dom` apply to the
+state it reaches (a pending point inside a sub-triangulated simplex) -/
+example : LND.ChooseGeomDom LND.exEnv ∧ LND.AskDom LND.exEnv LND.exOps ∧
+    ∃ s, LND.run LND.exEnv (LND.init LND.exEnv) LND.exOps = .ok s ∧ s.book.geomOK = true ∧
+      (∀ ss ∈ LND.exEnv.subSimps [0, 1, 2, 4], ∃ e ∈ s.book.queue, e.simplex = [0, 1, 2] ∧ e.sub = some ss) := by
+  have hsz : ∀ sv, ∀ ss ∈ LND.exEnv.subSimps sv, ss.length = LND.exEnv.dim + 1 := by
+    intro sv ss hss
+    simp only [LND.exEnv] at hss ⊢
+    split at hss
+    · simp only [List.mem_cons, List.not_mem_nil, or_false] at hss; subst hss; rfl
+    · split at hss
+      · simp only [List.mem_cons, List.not_mem_nil, or_false] at hss
+        rcases hss with rfl | rfl | rfl <;> rfl
+      · exact absurd hss (by simp)
+  have hC := LND.ChooseGeom.toDom LND.exEnv_chooseGeom hsz
+  have hN : LND.AskDom LND.exEnv LND.exOps := LND.askDom_of_askNew (fun _ => rfl) LND.exOps_askNew
+  obtain ⟨s, h, _, ht, _, hsub⟩ := LND.exRun
+  refine ⟨hC, hN, s, h, LND.lnd_ghost_true_dom LND.exEnv LND.exEnv_triGeom LND.exEnv_subGeom hC LND.exOps hN h, ?_⟩
+  have := LND.lnd_queue_complete_dom LND.exEnv LND.exEnv_triGeom LND.exEnv_subGeom hC LND.exOps hN h _ ht
+  exact (this [0, 1, 2] (by decide)).2 [0, 1, 2, 4] (by rw [hsub]; rfl)
